@@ -32,6 +32,10 @@ def _jax():
 # ---------------------------------------------------------------- real objects
 
 
+class BraxFailure(Exception):
+  pass
+
+
 class Impl:
   """A real replay buffer plus helpers to snapshot/restore its host-side state."""
 
@@ -63,7 +67,7 @@ class Impl:
       self.obj = rb.PjitWrapper(inner, mesh, ('x',))
     elif wrap == 'pjity':   # a 2-D mesh, buffer partitioned along the NON-leading axis only: n = size of 'y'
       from jax.sharding import Mesh
-      devs = np.array(jax.devices()[:4]).reshape(4 // n, n) if n in (1, 2, 4) else None
+      devs = np.array(jax.devices()[:8]).reshape(8 // n, n)     # e.g. 4 x 2 or 2 x 4: the two axes have different sizes
       mesh = Mesh(devs, ('x', 'y'))
       self.obj = rb.PjitWrapper(inner, mesh, ('y',))
     self._host0 = dict(inner.__dict__)
@@ -71,7 +75,10 @@ class Impl:
 
   def init(self):
     self.inner.__dict__.update(self._host0)
-    return (self.obj.init(self.key0), dict(self.inner.__dict__))
+    try:
+      return (self.obj.init(self.key0), dict(self.inner.__dict__))
+    except Exception as e:  # pylint: disable=broad-except
+      raise BraxFailure(f'init raised {type(e).__name__}: {str(e)[:200]}')
 
   def restore(self, snap):
     self.inner.__dict__.update(snap[1])
@@ -115,7 +122,11 @@ class Impl:
     try:
       st2 = self.obj.insert(st, self.records(ids))
     except ValueError:
-      return snap, 'ValueError'
+      # a refused call must leave the object as it was; keep whatever host-side state it has NOW so that a refusal with
+      # side effects shows up in the following operations
+      return (st, dict(self.inner.__dict__)), 'ValueError'
+    except Exception as e:  # any other exception of the code under test is an outcome to be judged, not a harness failure
+      return (st, dict(self.inner.__dict__)), f'raised {type(e).__name__}'
     return (st2, dict(self.inner.__dict__)), 'ok'
 
   def sample(self, snap):
@@ -124,13 +135,20 @@ class Impl:
       st2, batch = self.obj.sample(st)
     except ValueError:
       return (st, dict(self.inner.__dict__)), 'ValueError', None
+    except Exception as e:  # pylint: disable=broad-except
+      return (st, dict(self.inner.__dict__)), f'raised {type(e).__name__}', None
     return (st2, dict(self.inner.__dict__)), 'batch', self.decode(batch)
 
   def size(self, snap):
-    return int(self.obj.size(snap[0]))
+    try:
+      return int(self.obj.size(snap[0]))
+    except Exception:  # pylint: disable=broad-except
+      return -999
 
   def internals(self, snap):
     st = snap[0]
+    if not hasattr(st, 'insert_position'):
+      return {}
     ip, sp = np.asarray(st.insert_position), np.asarray(st.sample_position)
     d = np.asarray(st.data)
     return {'ip': ip.tolist(), 'sp': sp.tolist(), 'hsize': snap[1].get('_size'),
@@ -284,8 +302,12 @@ def model_and_walk(ctx, cap, batch, cyclic, kind, maxops, wrap=None, n=1):
   need = ['Insert', 'Sample'] if wrap else ['Insert', 'SampleUniform' if kind == 'uniform' else 'SampleQueue']
   tlc.require_coverage(res, need, label)
   nodes, edges, inits = tlaval.parse_dot(dot)
-  impl = Impl(cap, batch, cyclic, kind, wrap=wrap, n=n)
-  return walk_graph(ctx, impl, nodes, edges, inits, label, sharded=bool(wrap))
+  try:
+    impl = Impl(cap, batch, cyclic, kind, wrap=wrap, n=n)
+    return walk_graph(ctx, impl, nodes, edges, inits, label, sharded=bool(wrap))
+  except BraxFailure as e:
+    ctx.violation(f'{label}: {e}', {'cfg': label}, {'call': 'init', 'predicate': 'raised'})
+    return 0
 
 
 def closure(ctx, cap, batch, cyclic, kind, wrap=None, n=1):
